@@ -623,3 +623,598 @@ Proof.
 Qed.
 
 Print Assumptions roundtrip_bytes_bits.
+
+(* ------------------------------------------------------------------------------------------ *)
+(** * Values a parse produces: every Data(n) field of every packet inside holds n bytes         *)
+(* ------------------------------------------------------------------------------------------ *)
+
+(* Model/Wf2.lens_ok without its fuel (a parse with fuel n can nest lists of packets 2n deep in lens_ok's
+   measure), looking only at the declared attributes: what CodegenEquiv.prun_equiv asks of a packet value *)
+Inductive LVp (ct : ctab) : value -> Prop :=
+| LVp_pkt (c : cid) (s : slots) (k : cclass) :
+    ct_get ct c = Some k -> (forall j v, slot_get s (FN j) = Some v -> LVp ct v) ->
+    Forall (dcond s) (cc_fields k) -> LVp ct (VPkt c s)
+| LVp_list (l : list value) : (forall v, In v l -> LVp ct v) -> LVp ct (VList l)
+| LVp_atom (v : value) : match v with VPkt _ _ | VList _ => False | _ => True end -> LVp ct v.
+
+Lemma LVp_list_inv (ct : ctab) (l : list value) (v : value) : LVp ct (VList l) -> In v l -> LVp ct v.
+Proof. intros H. inversion H as [| ? Hl |? Hf]; subst; [exact (Hl v)|contradiction]. Qed.
+
+(* the code a class runs when packing agrees with the generic loop on such values *)
+Theorem pack_any_generic : forall fuel host dl ct c s fr fr',
+  LVp ct (VPkt c s) -> good fr -> good fr' -> feq fr fr' ->
+  qres_equiv (pack_any fuel host dl ct c s fr) (pack_pkt fuel host dl ct c s fr').
+Proof.
+  induction fuel as [|fuel IH]; intros host dl ct c s fr fr' HL G G' F.
+  - cbn. auto.
+  - rewrite pack_any_prun. cbn [pack_pkt].
+    inversion HL as [c0 s0 k Gk Hfn Hd| |? Hf]; subst; [|contradiction].
+    rewrite Gk.
+    assert (Hc : cur fr' = cur fr) by (symmetry; apply F).
+    change (pack_fields host dl (pack_pkt fuel host dl ct) (cc_conf k) c (cc_fields k) s fr' (cur fr'))
+      with (prun host dl (pack_pkt fuel host dl ct) false false (cc_conf k) c (cc_fields k) s fr').
+    apply (prun_equiv host dl (pack_any fuel host dl ct) (pack_pkt fuel host dl ct) (LVp ct)).
+    + intros l v. apply LVp_list_inv.
+    + intros c0 ps a b HL0 Ga Gb Fab. apply IH; assumption.
+    + split; [exact Hfn|exact Hd].
+    + exact G.
+    + exact G'.
+    + exact F.
+Qed.
+
+Section ULV.
+Variables (host : bool) (raw : bytes) (rec_unpack : cid -> Z -> pres) (loop_fuel : nat) (ct : ctab).
+Hypothesis HLV : forall c o v e t, rec_unpack c o = POk v e t -> LVp ct v.
+
+Definition fnLV (s : slots) : Prop := forall j v, slot_get s (FN j) = Some v -> LVp ct v.
+
+Lemma fnLV_set (s : slots) (name : fname) (v : value) : fnLV s -> LVp ct v -> fnLV (slot_set s name v).
+Proof.
+  intros Hs Hv j w G. rewrite RoundTrip.slot_get_set in G. destruct (fname_eqb (FN j) name).
+  - injection G as <-. exact Hv.
+  - exact (Hs j w G).
+Qed.
+
+Lemma fnLV_append (s : slots) (i : Z) (x : value) : fnLV s -> LVp ct x -> fnLV (append_to s (FN i) x).
+Proof.
+  intros Hs Hx. unfold append_to. destruct (slot_get s (FN i)) as [w|] eqn:G; [|exact Hs].
+  destruct w; try exact Hs. apply fnLV_set; [exact Hs|]. apply LVp_list. intros v Hin.
+  apply in_app_or in Hin as [Hin|[<-|[]]]; [|exact Hx].
+  exact (LVp_list_inv ct l v (Hs i _ G) Hin).
+Qed.
+
+Lemma unpack_leaf_LV (cf : lconf) (c : cid) (name : fname) (l : leaf) (s : slots) (off : Z) (v : value) (o' : Z) (t : trace) :
+  unpack_leaf host raw cf c name l s off = Ok (v, o', t) ->
+  LVp ct v /\ forall n ic d, l = LDataSized (ELit (VInt n)) ic d -> exists b, v = VBytes b /\ blen b = n.
+Proof.
+  intros H. destruct l as [n sg fe d|size ic d|m incl d|r incl d|d]; cbn [unpack_leaf] in H.
+  - destruct (int_unpack n sg _ raw off) as [[z o1]|]; [|discriminate]. injection H as <- _ _.
+    split; [apply LVp_atom; exact I|]. intros; discriminate.
+  - destruct (eval_int (mkctx raw s off) size) as [bc|] eqn:Es; [|discriminate]. cbn [bind] in H.
+    destruct (data_sized raw off bc) as [[x o1]|] eqn:E; [|discriminate]. injection H as <- _ _.
+    split; [apply LVp_atom; exact I|]. intros n ic' d' El. injection El as -> _ _.
+    cbn in Es. injection Es as <-. exists x. split; [reflexivity|].
+    unfold data_sized in E. destruct (data_short _ n) eqn:Eh; [discriminate|]. injection E as <- _.
+    unfold data_short in Eh. apply negb_false_iff in Eh. apply Z.eqb_eq. exact Eh.
+  - destruct (data_marker raw off (lc_sbl cf) m incl) as [[x o1]|]; [|discriminate]. injection H as <- _ _.
+    split; [apply LVp_atom; exact I|]. intros; discriminate.
+  - destruct (data_regex raw off (lc_sbl cf) r incl) as [[[x o1] dd]|]; [|discriminate]. injection H as <- _ _.
+    split; [apply LVp_atom; exact I|]. intros; discriminate.
+  - unfold data_eos in H. injection H as <- _ _. split; [apply LVp_atom; exact I|]. intros; discriminate.
+Qed.
+
+Lemma unpack_elem_LV (cf : lconf) (c : cid) (name : fname) (e : elem) (s : slots) (off : Z) (s1 : slots) (o1 : Z) (t1 : trace) :
+  unpack_elem host raw rec_unpack cf c name e s off = FOk s1 o1 t1 ->
+  exists v, s1 = slot_set s name v /\ LVp ct v /\
+    forall n ic d, e = ELeafE (LDataSized (ELit (VInt n)) ic d) -> exists b, v = VBytes b /\ blen b = n.
+Proof.
+  destruct e as [l|c' proto|sel d]; cbn [unpack_elem].
+  - destruct (unpack_leaf host raw cf c name l s off) as [[[v o'] t]|] eqn:El; [|discriminate].
+    intros H. injection H as <- _ _. destruct (unpack_leaf_LV _ _ _ _ _ _ _ _ _ El) as [Hv Hd].
+    exists v. split; [reflexivity|]. split; [exact Hv|]. intros n ic d E. injection E as ->. exact (Hd n ic d eq_refl).
+  - destruct (rec_unpack c' off) as [v o' t| |] eqn:Er; try discriminate.
+    intros H. injection H as <- _ _. exists v. split; [reflexivity|]. split; [exact (HLV _ _ _ _ _ Er)|].
+    intros; discriminate.
+  - destruct (eval (mkctx raw s off) sel) as [w|]; [|discriminate].
+    destruct w as [| | | | | | |c' ps|c' kw|l]; try discriminate.
+    + destruct (rec_unpack c' off) as [v o' t| |] eqn:Er; try discriminate.
+      intros H. injection H as <- _ _. exists v. split; [reflexivity|]. split; [exact (HLV _ _ _ _ _ Er)|].
+      intros; discriminate.
+    + destruct (rec_unpack c' off) as [v o' t| |] eqn:Er; try discriminate.
+      intros H. injection H as <- _ _. exists v. split; [reflexivity|]. split; [exact (HLV _ _ _ _ _ Er)|].
+      intros; discriminate.
+    + destruct (unpack_leaf host raw empty_conf c name l s off) as [[[v o'] t]|] eqn:El; [|discriminate].
+      intros H. injection H as <- _ _. destruct (unpack_leaf_LV _ _ _ _ _ _ _ _ _ El) as [Hv _].
+      exists v. split; [reflexivity|]. split; [exact Hv|]. intros; discriminate.
+Qed.
+
+Lemma seq_step_LV (cf : lconf) (c : cid) (i : Z) (e : elem) (s : slots) (o1 : Z) (s1 : slots) (o2 : Z) (t1 : trace) :
+  fnLV s -> unpack_elem host raw rec_unpack cf c (FSeqElem i) e s o1 = FOk s1 o2 t1 ->
+  fnLV (append_to s1 (FN i) (elem_value s1 (FSeqElem i))).
+Proof.
+  intros Hs Ee. destruct (unpack_elem_LV _ _ _ _ _ _ _ _ _ Ee) as (v & -> & Hv & _).
+  unfold elem_value. rewrite slot_get_set_same. apply fnLV_append; [|exact Hv]. apply fnLV_set; assumption.
+Qed.
+
+Lemma unpack_count_LV (cf : lconf) (c : cid) (i : Z) (e : elem) (al : Z) : forall k s off t s' o' t',
+  fnLV s -> unpack_count host raw rec_unpack cf c i e al k s off t = FOk s' o' t' -> fnLV s'.
+Proof.
+  induction k as [|k IH]; intros s off t s' o' t' Hs H; cbn [unpack_count] in H.
+  - injection H as <- _ _. exact Hs.
+  - destruct (seq_align al off) as [o1|]; [|discriminate].
+    destruct (unpack_elem host raw rec_unpack cf c (FSeqElem i) e s o1) as [s1 o2 t1| | |] eqn:Ee; try discriminate.
+    exact (IH _ _ _ _ _ _ (seq_step_LV cf c i e s o1 s1 o2 t1 Hs Ee) H).
+Qed.
+
+Lemma unpack_until_LV (cf : lconf) (c : cid) (i : Z) (e : elem) (al : Z) (u : expr) : forall fuel s off t s' o' t',
+  fnLV s -> unpack_until host raw rec_unpack fuel cf c i e al u s off t = FOk s' o' t' -> fnLV s'.
+Proof.
+  induction fuel as [|fuel IH]; intros s off t s' o' t' Hs H; cbn [unpack_until] in H.
+  - destruct (eval (mkctx raw s off) u) as [w|]; [|discriminate].
+    destruct (truth w); [|discriminate]. injection H as <- _ _. exact Hs.
+  - destruct (eval (mkctx raw s off) u) as [w|]; [|discriminate].
+    destruct (truth w); [injection H as <- _ _; exact Hs|].
+    destruct (seq_align al off) as [o1|]; [|discriminate].
+    destruct (unpack_elem host raw rec_unpack cf c (FSeqElem i) e s o1) as [s1 o2 t1| | |] eqn:Ee; try discriminate.
+    exact (IH _ _ _ _ _ _ (seq_step_LV cf c i e s o1 s1 o2 t1 Hs Ee) H).
+Qed.
+
+Lemma dcond_other (s : slots) (f : cfield) : (forall i e, f <> CElem i e) -> dcond s f.
+Proof. intros Hf i n d b E. exfalso. exact (Hf _ _ E). Qed.
+
+Lemma unpack_field_LV (cf : lconf) (c : cid) (f : cfield) (s : slots) (off ipp : Z) (s1 : slots) (o1 : Z) (t1 : trace) :
+  fnLV s -> unpack_field host raw rec_unpack loop_fuel cf c f s off ipp = FOk s1 o1 t1 -> fnLV s1 /\ dcond s1 f.
+Proof.
+  intros Hs H.
+  destruct f as [i arg rf al|i e|i bf bl run0 sh mk nb d|i e count until when d al|i e when d|i];
+    (split; [|try (apply dcond_other; intros; discriminate)]).
+  - rewrite unpack_move_eq in H. destruct (mv_u raw arg s off) as [z|]; [|discriminate].
+    destruct (al && (z =? 0)); [discriminate|]. destruct (move_unpack al rf z off ipp); [|discriminate].
+    injection H as <- _ _. exact Hs.
+  - cbn [unpack_field] in H. destruct (unpack_elem_LV _ _ _ _ _ _ _ _ _ H) as (v & -> & Hv & _).
+    apply fnLV_set; assumption.
+  - cbn [unpack_field] in H. destruct (unpack_elem_LV _ _ _ _ _ _ _ _ _ H) as (v & -> & _ & Hd).
+    intros i' n d' b E G. injection E as <- ->. rewrite slot_get_set_same in G. injection G as ->.
+    destruct (Hd n true d' eq_refl) as (b0 & Eb & Hl). injection Eb as ->. exact Hl.
+  - cbn [unpack_field] in H. destruct bf.
+    + destruct (int_unpack nb false true raw off) as [[v o']|]; [|discriminate].
+      rewrite slot_get_set_same in H. injection H as <- _ _.
+      apply fnLV_set; [apply fnLV_set; [exact Hs|]|]; apply LVp_atom; exact I.
+    + destruct (slot_get s (FBitsI run0)) as [[]|]; try discriminate. injection H as <- _ _.
+      apply fnLV_set; [exact Hs|]. apply LVp_atom; exact I.
+  - cbn [unpack_field] in H.
+    assert (Hs0 : fnLV (slot_set s (FN i) (VList []))).
+    { apply fnLV_set; [exact Hs|]. apply LVp_list. intros v []. }
+    match type of H with match ?X with _ => _ end = _ => destruct X as [n|]; [|discriminate] end.
+    match type of H with match ?X with _ => _ end = _ => destruct X as [[|]|]; try discriminate end.
+    + injection H as <- _ _. exact Hs0.
+    + destruct (unpack_count host raw rec_unpack cf c i e al (Z.to_nat n) _ off []) as [sa oa ta| | |] eqn:Ec;
+        try discriminate.
+      pose proof (unpack_count_LV cf c i e al _ _ _ _ _ _ _ Hs0 Ec) as Hsa.
+      destruct until as [u|].
+      * exact (unpack_until_LV cf c i e al u _ _ _ _ _ _ _ Hsa H).
+      * injection H as <- _ _. exact Hsa.
+  - cbn [unpack_field] in H. destruct (eval (mkctx raw s off) when) as [w|]; [|discriminate].
+    destruct (truth w).
+    + destruct (unpack_elem host raw rec_unpack cf c (FOptElem i) e s off) as [sa oa ta| | |] eqn:Ee; try discriminate.
+      destruct (unpack_elem_LV _ _ _ _ _ _ _ _ _ Ee) as (v & -> & Hv & _). injection H as <- _ _.
+      unfold elem_value. rewrite slot_get_set_same. apply fnLV_set; [apply fnLV_set|]; assumption.
+    + injection H as <- _ _. apply fnLV_set; [exact Hs|]. apply LVp_atom. exact I.
+  - cbn [unpack_field] in H. injection H as <- _ _. exact Hs.
+Qed.
+
+Lemma unpack_fields_LV (cf : lconf) (c : cid) : forall fs s off ipp t v e tq,
+  NoDup (fidxs fs) -> fnLV s ->
+  unpack_fields host raw rec_unpack loop_fuel cf c fs s off ipp t = POk v e tq ->
+  exists sf, v = VPkt c sf /\ fnLV sf /\ Forall (dcond sf) fs /\
+    forall j, ~ In j (fidxs fs) -> slot_get sf (FN j) = slot_get s (FN j).
+Proof.
+  induction fs as [|f r IH]; intros s off ipp t v e tq Hnd Hs H; cbn [unpack_fields] in H.
+  - injection H as <- _ _. exists s. split; [reflexivity|]. split; [exact Hs|]. split; [constructor|reflexivity].
+  - unfold fidxs in Hnd. cbn [flat_map] in Hnd. fold (fidxs r) in Hnd.
+    destruct (nodup_app_disj _ _ Hnd) as [Hndr Hdisj].
+    destruct (unpack_field host raw rec_unpack loop_fuel cf c f s off ipp) as [s1 o1 t1| | |] eqn:Ef;
+      try discriminate.
+    destruct (unpack_field_LV cf c f s off ipp s1 o1 t1 Hs Ef) as [Hs1 Hd1].
+    destruct (IH s1 o1 ipp _ v e tq Hndr Hs1 H) as (sf & -> & Hsf & Hdf & Hfrf).
+    exists sf. split; [reflexivity|]. split; [exact Hsf|]. split.
+    + constructor; [|exact Hdf]. intros i n d b E G. subst f.
+      rewrite Hfrf in G by (apply Hdisj; left; reflexivity). exact (Hd1 i n d b eq_refl G).
+    + intros j Hj. unfold fidxs in Hj. cbn [flat_map] in Hj. fold (fidxs r) in Hj.
+      rewrite Hfrf by (intros Hin; apply Hj; apply in_or_app; right; exact Hin).
+      apply (unpack_field_frame host raw rec_unpack loop_fuel cf c f s off ipp s1 o1 t1 (FN j) Ef).
+      cbn [fr_ok]. intros Hin. apply Hj. apply in_or_app. left. exact Hin.
+Qed.
+End ULV.
+
+Lemma unpack_pkt_LV (host : bool) (ct : ctab) (raw : bytes) : ct_distinct ct = true ->
+  forall fuel c off v e t, unpack_pkt fuel host ct raw c off = POk v e t -> LVp ct v.
+Proof.
+  intros Hdis. induction fuel as [|fuel IH]; intros c off v e t H; cbn [unpack_pkt] in H; [discriminate|].
+  destruct (ct_get ct c) as [k|] eqn:Ec; [|discriminate].
+  pose proof (ct_get_forallb (fun k => nodupb (fidxs (cc_fields k))) ct c k Hdis Ec) as Hk2.
+  cbv beta in Hk2. apply nodupb_NoDup in Hk2.
+  destruct (unpack_fields_LV host raw (unpack_pkt fuel host ct raw) fuel ct IH (cc_conf k) c (cc_fields k)
+              [] off off [] v e t Hk2 ltac:(intros j w G; discriminate G) H) as (sf & -> & Hsf & Hdf & _).
+  exact (LVp_pkt ct c sf k Ec Hsf Hdf).
+Qed.
+
+(* and for the code a class really runs: generated or generic, whatever the options *)
+Theorem roundtrip_bytes_any : forall fuel host dl ct raw c off s e t,
+  wf_bytes raw -> ct_distinct ct = true -> ct_rtb off ct = true -> ct_bits_ok ct = true ->
+  ct_wf ct = true -> ct_sizes_ok ct = true -> 0 <= off ->
+  unpack_any fuel host ct raw c off = POk (VPkt c s) e t -> trace_from off t -> trace_in raw t ->
+  match fold_a aempty (chunk_ops off t) with
+  | Some a => exists v', pack_any_top fuel host dl ct c s = PBytes (a_tobytes a) v'
+  | None => exists st, pack_any_top fuel host dl ct c s = PErr st
+  end.
+Proof.
+  intros fuel host dl ct raw c off s e t Hraw Hdis Hrt Hbits _ Hsz Hoff H Htf Hti.
+  pose proof (unpack_any_generic fuel host ct raw c off Hsz Hoff) as Hu. rewrite H in Hu.
+  destruct (unpack_pkt fuel host ct raw c off) as [v1 e1 t1| |] eqn:Hp; cbn [pres_equiv] in Hu; try contradiction.
+  destruct Hu as (<- & <- & <-).
+  pose proof (roundtrip_bytes_bits fuel host dl ct raw c off s e t Hraw Hdis Hrt Hbits Hoff Hp Htf Hti) as Hrb.
+  pose proof (unpack_pkt_LV host ct raw Hdis fuel c off _ _ _ Hp) as HL.
+  pose proof (pack_any_generic fuel host dl ct c s empty empty HL good_empty good_empty (feq_refl empty)) as Hq.
+  unfold pack_any_top. unfold pack_top in Hrb.
+  destruct (pack_any fuel host dl ct c s empty) as [va fa| |], (pack_pkt fuel host dl ct c s empty) as [vb fb| |];
+    cbn [qres_equiv] in Hq; try contradiction.
+  - destruct Hq as (<- & F & Ga & Gb). rewrite (feq_tobytes fa fb Ga Gb F).
+    destruct (fold_a aempty (chunk_ops off t)) as [a|].
+    + destruct Hrb as [v' Hv]. exists v'. exact Hv.
+    + destruct Hrb as [st Hst]. discriminate Hst.
+  - destruct (fold_a aempty (chunk_ops off t)) as [a|].
+    + destruct Hrb as [v' Hv]. discriminate Hv.
+    + eexists. reflexivity.
+  - destruct (fold_a aempty (chunk_ops off t)) as [a|].
+    + destruct Hrb as [v' Hv]. discriminate Hv.
+    + destruct Hrb as [st Hst]. discriminate Hst.
+Qed.
+
+Print Assumptions roundtrip_bytes_any.
+
+(* ------------------------------------------------------------------------------------------ *)
+(** * Every table built by the metaclass has well-formed bit runs (widths >= 1)                 *)
+(* ------------------------------------------------------------------------------------------ *)
+
+(* ---- the width of a member is recovered from its mask ---- *)
+Lemma db_bits_width_mask : forall w s, 0 <= w -> 0 <= s -> bits_width s (mask_of w s) = w.
+Proof.
+  intros w s Hw Hs. unfold bits_width, mask_of.
+  rewrite Z.shiftr_shiftl_l by lia. rewrite Z.sub_diag, Z.shiftl_0_r.
+  replace (2 ^ w - 1 + 1) with (2 ^ w) by lia. apply Z.log2_pow2; lia.
+Qed.
+
+Lemma db_skipn_nth : forall (A : Type) (l : list A) k x,
+  nth_error l k = Some x -> skipn k l = x :: skipn (S k) l.
+Proof.
+  induction l as [|a l IH]; intros k x H; destruct k as [|k]; cbn [nth_error] in H; try discriminate.
+  - injection H as ->. reflexivity.
+  - cbn [skipn]. cbn [skipn] in IH. apply IH, H.
+Qed.
+
+(* ---- take_run / fuel ---- *)
+Lemma db_take_run_len : forall l, (length (snd (take_run l)) <= length l)%nat.
+Proof.
+  induction l as [|f r IH]; [cbn; lia|].
+  destruct f; cbn [take_run snd length]; try lia.
+  destruct (take_run r) as [a b]; cbn [snd] in *; lia.
+Qed.
+
+Lemma db_runs_ok_fuel : forall n m l, (length l <= n)%nat -> (length l <= m)%nat ->
+  runs_ok n l = runs_ok m l.
+Proof.
+  induction n as [|n IH]; intros m l Hn Hm.
+  - destruct l; [|cbn in Hn; lia]. destruct m; reflexivity.
+  - destruct m as [|m]. { destruct l; [reflexivity | cbn in Hm; lia]. }
+    destruct l as [|f r]; [reflexivity|]. cbn [length] in Hn, Hm.
+    destruct f; cbn [runs_ok]; try (apply IH; lia).
+    cbn [take_run]. pose proof (db_take_run_len r) as Hl.
+    destruct (take_run r) as [a b]. cbn [snd] in Hl.
+    f_equal. apply IH; lia.
+Qed.
+
+(* ---- what the compiled members of one run look like ---- *)
+Definition db_bw (f : cfield) : Z :=
+  match f with CBits _ _ _ _ shift mask _ _ => bits_width shift mask | _ => 0 end.
+
+Definition db_member (run : list (Z * Z)) (k : nat) (f : cfield) : Prop :=
+  exists i w d, nth_error run k = Some (i, w) /\
+    f = CBits i (Nat.eqb k 0) (Nat.eqb (S k) (length run)) (fst (hd (0, 0) run))
+              (suffix_sum (map snd run) k) (mask_of w (suffix_sum (map snd run) k))
+              (zsum (map snd run) / 8) d.
+
+Definition db_run_good (run : list (Z * Z)) : Prop :=
+  Forall (fun w => 1 <= w) (map snd run) /\
+  bits_compile (map snd run) = Some (layout (map snd run), zsum (map snd run) / 8).
+
+Fixpoint db_members (run : list (Z * Z)) (k : nat) (cbs : list cfield) : Prop :=
+  match cbs with
+  | [] => True
+  | f :: r => db_member run k f /\ db_run_good run /\ db_members run (S k) r
+  end.
+
+Lemma db_pos_nonneg : forall ws, Forall (fun w => 1 <= w) ws -> nonneg_all ws.
+Proof.
+  intros ws H. unfold nonneg_all. eapply Forall_impl; [|exact H]. cbn. intros; lia.
+Qed.
+
+Lemma db_pos_nth : forall ws k w, Forall (fun w => 1 <= w) ws -> nth_error ws k = Some w -> 1 <= w.
+Proof.
+  intros ws k w H Hn. rewrite Forall_forall in H. apply H. eapply nth_error_In; exact Hn.
+Qed.
+
+Lemma db_map_width : forall run cbs k, db_members run k cbs ->
+  (length cbs + k = length run)%nat -> map db_bw cbs = skipn k (map snd run).
+Proof.
+  intros run. induction cbs as [|f r IH]; intros k HM HL.
+  - cbn [length] in HL. cbn [map]. symmetry. apply skipn_all2. rewrite map_length. lia.
+  - destruct HM as [(i & w & d & Hn & Hf) [[Hpos Hbc] HM']].
+    assert (Hnw : nth_error (map snd run) k = Some w).
+    { rewrite (map_nth_error snd _ _ Hn). reflexivity. }
+    rewrite (db_skipn_nth _ _ _ _ Hnw). cbn [map]. f_equal.
+    + subst f. cbn [db_bw]. apply db_bits_width_mask.
+      * pose proof (db_pos_nth _ _ _ Hpos Hnw). lia.
+      * apply suffix_sum_nonneg, db_pos_nonneg, Hpos.
+    + apply IH; [exact HM' | cbn [length] in HL; lia].
+Qed.
+
+Lemma db_members_forallb : forall run n cbs k, n = length run -> db_members run k cbs ->
+  forallb (fun p => member_ok (fst (hd (0, 0) run)) (zsum (map snd run) / 8) n
+                              (fst (fst p)) (snd (fst p)) (snd p))
+    (combine (combine (seq k (length cbs)) cbs) (skipn k (layout (map snd run)))) = true.
+Proof.
+  intros run n cbs k Hn0. subst n. revert k. induction cbs as [|f r IH]; intros k HM.
+  - reflexivity.
+  - destruct HM as [(i & w & d & Hn & Hf) [[Hpos Hbc] HM']].
+    assert (Hnw : nth_error (map snd run) k = Some w).
+    { rewrite (map_nth_error snd _ _ Hn). reflexivity. }
+    pose proof (layout_nth _ _ _ Hnw) as Hlay.
+    rewrite (db_skipn_nth _ _ _ _ Hlay).
+    cbn [length seq combine forallb]. rewrite (IH (S k) HM'), andb_true_r.
+    subst f. unfold member_ok. cbn [fst snd].
+    rewrite !Bool.eqb_reflx, !Z.eqb_refl. cbn [andb].
+    rewrite db_bits_width_mask.
+    + apply andb_true_intro. split; apply Z.leb_le.
+      * apply suffix_sum_nonneg, db_pos_nonneg, Hpos.
+      * apply (db_pos_nth _ _ _ Hpos Hnw).
+    + pose proof (db_pos_nth _ _ _ Hpos Hnw). lia.
+    + apply suffix_sum_nonneg, db_pos_nonneg, Hpos.
+Qed.
+
+Lemma db_run_ok_unfold : forall i a b c s m nb d r,
+  run_ok (CBits i a b c s m nb d :: r) =
+  match bits_compile (map db_bw (CBits i a b c s m nb d :: r)) with
+  | Some (sm, nb') =>
+      (nb' =? nb) && (Z.of_nat (length sm) =? Z.of_nat (length (CBits i a b c s m nb d :: r))) &&
+      forallb (fun p => member_ok i nb (length (CBits i a b c s m nb d :: r))
+                                  (fst (fst p)) (snd (fst p)) (snd p))
+              (combine (combine (seq 0 (length (CBits i a b c s m nb d :: r)))
+                                (CBits i a b c s m nb d :: r)) sm)
+  | None => false
+  end.
+Proof. reflexivity. Qed.
+
+Lemma db_run_ok : forall run cbs, db_members run 0 cbs -> length cbs = length run ->
+  run_ok cbs = true.
+Proof.
+  intros run cbs HM HL. destruct cbs as [|f r]; [reflexivity|].
+  assert (HW : map db_bw (f :: r) = map snd run).
+  { rewrite (db_map_width run (f :: r) 0%nat HM) by lia. reflexivity. }
+  pose proof (db_members_forallb run (length (f :: r)) (f :: r) 0%nat HL HM) as HF.
+  cbn [skipn] in HF.
+  destruct HM as [(i & w & d & Hn & Hf) [[Hpos Hbc] HM']].
+  assert (Hi : fst (hd (0, 0) run) = i).
+  { destruct run as [|[i0 w0] t]; cbn [nth_error] in Hn; [discriminate|].
+    injection Hn as -> ->. reflexivity. }
+  rewrite Hi in *. clear Hi.
+  subst f. rewrite db_run_ok_unfold. rewrite HW, Hbc.
+  apply andb_true_intro. split; [apply andb_true_intro; split|].
+  - apply Z.eqb_refl.
+  - rewrite layout_length, map_length, HL. apply Z.eqb_refl.
+  - exact HF.
+Qed.
+
+Lemma db_finish : forall run l cbs l', take_run l = (cbs, l') -> length cbs = length run ->
+  db_members run 0 cbs -> runs_ok (length l') l' = true -> runs_ok (length l) l = true.
+Proof.
+  intros run l cbs l' HT HL HM HR.
+  destruct l as [|f r]; [reflexivity|].
+  destruct f; cbn [take_run] in HT; try (injection HT as <- <-; exact HR).
+  cbn [length runs_ok take_run].
+  pose proof (db_take_run_len r) as Hlen.
+  destruct (take_run r) as [a b]. cbn [snd] in Hlen. injection HT as <- <-.
+  rewrite (db_run_ok run _ HM HL). cbn [andb].
+  rewrite (db_runs_ok_fuel (length r) (length b) b) by lia. exact HR.
+Qed.
+
+(* ---- positivity of the widths ---- *)
+Definition db_pos (d : dfield) : Prop :=
+  match d with DBody _ (SBits w _) => 1 <= w | _ => True end.
+
+Lemma db_pos_run_back : forall ds, Forall db_pos ds -> Forall (fun w => 1 <= w) (map snd (run_back ds)).
+Proof.
+  induction 1 as [|d r Hd Hr IH]; cbn [run_back map]; [constructor|].
+  destruct d as [| i b]; cbn [is_bits map]; [constructor|].
+  destruct b; cbn [map]; try constructor; [exact Hd | exact IH].
+Qed.
+
+Lemma db_pos_run_fwd : forall ds, Forall db_pos ds -> Forall (fun w => 1 <= w) (map snd (run_fwd ds)).
+Proof.
+  induction 1 as [|d r Hd Hr IH]; cbn [run_fwd map]; [constructor|].
+  destruct d as [| i b]; cbn [is_bits map]; [constructor|].
+  destruct b; cbn [map]; try constructor; [exact Hd | exact IH].
+Qed.
+
+Definition db_is_cbits (f : cfield) : bool :=
+  match f with CBits _ _ _ _ _ _ _ _ => true | _ => false end.
+
+(* a non-bits head: one step *)
+Lemma db_step_nonbits : forall cf l2 run cbs l',
+  db_is_cbits cf = false ->
+  take_run l2 = (cbs, l') -> length cbs = length run -> db_members run 0 cbs ->
+  runs_ok (length l') l' = true ->
+  take_run (cf :: l2) = ([], cf :: l2) /\ runs_ok (length (cf :: l2)) (cf :: l2) = true.
+Proof.
+  intros cf l2 run cbs l' Hcf HT HL HM HR.
+  pose proof (db_finish run l2 cbs l' HT HL HM HR) as H2.
+  destruct cf; cbn [db_is_cbits] in Hcf; try discriminate; (split; [reflexivity | exact H2]).
+Qed.
+
+Lemma db_compile_inv : forall al ds before l,
+  Forall db_pos before -> Forall db_pos ds -> compile_fields al before ds = Some l ->
+  exists cbs l', take_run l = (cbs, l') /\ length cbs = length (run_fwd ds) /\
+    db_members (rev (run_back before) ++ run_fwd ds) (length (run_back before)) cbs /\
+    runs_ok (length l') l' = true.
+Proof.
+  intros al. induction ds as [|d rest IH]; intros before l Hb Hds H.
+  - cbn [compile_fields] in H. injection H as <-. exists [], []. repeat split.
+  - assert (Hd : db_pos d) by (inversion Hds; assumption).
+    assert (Hrest : Forall db_pos rest) by (inversion Hds; assumption).
+    assert (Hb' : Forall db_pos (d :: before)) by (constructor; assumption).
+    assert (NB : forall cf, db_is_cbits cf = false -> is_bits d = None ->
+              match compile_fields al (d :: before) rest with
+              | Some l0 => Some (cf :: l0) | None => None end = Some l ->
+              exists cbs l', take_run l = (cbs, l') /\ length cbs = length (run_fwd (d :: rest)) /\
+                db_members (rev (run_back before) ++ run_fwd (d :: rest)) (length (run_back before)) cbs /\
+                runs_ok (length l') l' = true).
+    { intros cf Hcf Hnb H0.
+      destruct (compile_fields al (d :: before) rest) as [l2|] eqn:Ecf; [|discriminate].
+      injection H0 as <-.
+      destruct (IH (d :: before) l2 Hb' Hrest Ecf) as (cbs2 & l2' & HT & HL & HM & HR).
+      cbn [run_back] in HM. rewrite Hnb in HM. cbn [rev app length] in HM.
+      destruct (db_step_nonbits cf l2 _ _ _ Hcf HT HL HM HR) as [HT' HR'].
+      exists [], (cf :: l2). cbn [run_fwd]. rewrite Hnb.
+      repeat split; assumption. }
+    destruct d as [i arg rf a | i b].
+    + cbn [compile_fields] in H. eapply NB; [| reflexivity | exact H]. reflexivity.
+    + destruct b as [e | w dflt | e cnt unt whn dflt a | e whn dflt | ].
+      * cbn [compile_fields] in H. eapply NB; [| reflexivity | exact H]. reflexivity.
+      * clear NB. cbn [compile_fields] in H. cbn [db_pos] in Hd.
+        remember (rev (run_back before) ++ (i, w) :: run_fwd rest) as run eqn:Erun.
+        destruct (bits_compile (map snd run)) as [[sm nb]|] eqn:Ebc; [|discriminate].
+        destruct (nth_error sm (length (run_back before))) as [[shift mask]|] eqn:Enth; [|discriminate].
+        destruct (compile_fields al (DBody i (SBits w dflt) :: before) rest) as [l2|] eqn:Ecf; [|discriminate].
+        injection H as <-.
+        destruct (IH _ l2 Hb' Hrest Ecf) as (cbs2 & l2' & HT & HL & HM & HR).
+        cbn [run_back is_bits rev length] in HM. rewrite <- app_assoc in HM. cbn [app] in HM.
+        rewrite <- Erun in HM.
+        destruct (bits_compile_inv _ _ _ Ebc) as [Hsm Hz].
+        assert (Hnr : nth_error run (length (run_back before)) = Some (i, w)).
+        { rewrite Erun. rewrite nth_error_app2 by (rewrite rev_length; lia).
+          rewrite rev_length, Nat.sub_diag. reflexivity. }
+        assert (Hnw : nth_error (map snd run) (length (run_back before)) = Some w).
+        { rewrite (map_nth_error snd _ _ Hnr). reflexivity. }
+        assert (Hlen : length run = (length (run_back before) + S (length (run_fwd rest)))%nat).
+        { rewrite Erun, app_length, rev_length. reflexivity. }
+        assert (Hnb : zsum (map snd run) / 8 = nb).
+        { rewrite Hz, Z.mul_comm, Z.div_mul by lia. reflexivity. }
+        eexists (_ :: cbs2), l2'. split; [cbn [take_run]; rewrite HT; reflexivity|].
+        split; [cbn [run_fwd is_bits length]; rewrite HL; reflexivity|].
+        split; [|exact HR].
+        cbn [run_fwd is_bits]. rewrite <- Erun. cbn [db_members].
+        split; [|split; [|exact HM]].
+        -- exists i, w, dflt. split; [exact Hnr|].
+           rewrite Hsm, (layout_nth _ _ _ Hnw) in Enth. injection Enth as <- <-.
+           rewrite Hnb. f_equal.
+           ++ destruct (run_back before); reflexivity.
+           ++ rewrite Hlen. destruct (run_fwd rest); cbn [length].
+              ** symmetry. apply Nat.eqb_eq. lia.
+              ** symmetry. apply Nat.eqb_neq. lia.
+           ++ destruct run as [|[i0 w0] t]; [|reflexivity].
+              destruct (length (run_back before)); discriminate.
+        -- split.
+           ++ rewrite Erun, map_app, map_cons. apply Forall_app. split.
+              ** rewrite map_rev. apply Forall_rev. apply db_pos_run_back, Hb.
+              ** constructor; [exact Hd | apply db_pos_run_fwd, Hrest].
+           ++ rewrite Ebc, Hsm, Hnb. reflexivity.
+      * cbn [compile_fields] in H. eapply NB; [| reflexivity | exact H]. reflexivity.
+      * cbn [compile_fields] in H. eapply NB; [| reflexivity | exact H]. reflexivity.
+      * cbn [compile_fields] in H. eapply NB; [| reflexivity | exact H]. reflexivity.
+Qed.
+
+(* ---- describe_fields keeps the widths positive ---- *)
+Definition pclass_bits_pos (p : pclass) : bool :=
+  forallb (fun f => match fd_body f with SBits w _ => 1 <=? w | _ => true end) (pc_fields p).
+
+Lemma db_describe_fields_pos : forall al fs i,
+  forallb (fun f => match fd_body f with SBits w _ => 1 <=? w | _ => true end) fs = true ->
+  Forall db_pos (describe_fields al fs i).
+Proof.
+  intros al. induction fs as [|f r IH]; intros i H; cbn [describe_fields]; [constructor|].
+  cbn [forallb] in H. apply andb_prop in H. destruct H as [Hf Hr].
+  assert (Hp : db_pos (DBody i (fd_body f))).
+  { cbn [db_pos]. destruct (fd_body f); try exact I. apply Z.leb_le, Hf. }
+  apply Forall_app. split; [|apply IH, Hr].
+  destruct (fd_move f) as [[[arg rf] a]|].
+  - constructor; [exact I|]. constructor; [exact Hp | constructor].
+  - destruct al as [a|].
+    + constructor; [exact I|]. constructor; [exact Hp | constructor].
+    + constructor; [exact Hp | constructor].
+Qed.
+
+Theorem describe_bits_ok : forall p k,
+  pclass_bits_pos p = true -> describe p = Some k -> class_bits_ok k = true.
+Proof.
+  intros p k Hpos H. unfold describe in H.
+  destruct (compile_fields (pc_align p) [] (describe_fields (pc_align p) (pc_fields p) 0))
+    as [l|] eqn:Ecf; [|discriminate].
+  injection H as <-. unfold class_bits_ok. cbn [cc_fields].
+  destruct (db_compile_inv _ _ _ _ (Forall_nil _) (db_describe_fields_pos _ _ _ Hpos) Ecf)
+    as (cbs & l' & HT & HL & HM & HR).
+  cbn [run_back rev app length] in HM.
+  exact (db_finish _ _ _ _ HT HL HM HR).
+Qed.
+
+
+Print Assumptions describe_bits_ok.
+
+(* ------------------------------------------------------------------------------------------ *)
+(** * Refutation of describe_bits_ok without positive widths; a non-vacuity instance           *)
+(* ------------------------------------------------------------------------------------------ *)
+
+Definition rtf_pc (fs : list sfield) : pclass :=
+  {| pc_endianness := None; pc_align := None; pc_sbl := None; pc_gen_pack := true; pc_gen_unpack := true;
+     pc_vectorize := true; pc_fields := map (fun b => {| fd_move := None; fd_body := b |}) fs |}.
+
+(* Bits(8), Bits(0): the class can be defined, but the second member has an empty mask *)
+Example refute_describe_bits_ok_without_pos :
+  exists k, describe (rtf_pc [SBits 8 VNone; SBits 0 VNone]) = Some k /\ class_bits_ok k = false.
+Proof. eexists. split; vm_compute; reflexivity. Qed.
+
+(* the fuel of Model/Wf2.lens_ok does not follow the fuel of the parse: one Int field, fuel 1 *)
+Example lens_ok_fuel_mismatch :
+  let ct := [(0, rt_mk [CElem 0 rt_u8])] in
+  unpack_pkt 1 true ct [7] 0 0 = POk (VPkt 0 [(FN 0, VInt 7)]) 1 [TChunk 0 [7]] /\
+  lens_ok 1 ct (VPkt 0 [(FN 0, VInt 7)]) = false.
+Proof. split; vm_compute; reflexivity. Qed.
+
+(* a described class: a run 3+5 bits, an Int, a run 4+12 bits, a Data(2), generated code on both sides *)
+Definition rtf_ex_pc : pclass :=
+  rtf_pc [SBits 3 VNone; SBits 5 VNone; SElem rt_u8; SBits 4 VNone; SBits 12 VNone;
+          SElem (ELeafE (LDataSized (ELit (VInt 2)) true VNone))].
+Definition rtf_ex_raw : bytes := [9; 9; 171; 7; 18; 52; 1; 2; 99].
+
+Example roundtrip_any_nonvacuous :
+  exists k s e t,
+    describe rtf_ex_pc = Some k /\ pclass_bits_pos rtf_ex_pc = true /\
+    let ct := [(0, k)] in
+    unpack_any 3 true ct rtf_ex_raw 0 2 = POk (VPkt 0 s) e t /\
+    slot_get s (FN 0) = Some (VInt 5) /\ slot_get s (FN 1) = Some (VInt 11) /\
+    slot_get s (FN 3) = Some (VInt 1) /\ slot_get s (FN 4) = Some (VInt 564) /\
+    ct_rtb 2 ct = true /\ ct_bits_ok ct = true /\ ct_distinct ct = true /\ ct_wf ct = true /\
+    ct_sizes_ok ct = true /\ wf_bytes rtf_ex_raw /\ trace_from 2 t /\ trace_in rtf_ex_raw t /\
+    pack_any_top 3 true rt_dl0 ct 0 s = PBytes [171; 7; 18; 52; 1; 2] (VPkt 0 s).
+Proof.
+  eexists _, _, _, _. split; [vm_compute; reflexivity|]. split; [vm_compute; reflexivity|]. cbv zeta.
+  split; [vm_compute; reflexivity|].
+  split; [vm_compute; reflexivity|]. split; [vm_compute; reflexivity|].
+  split; [vm_compute; reflexivity|]. split; [vm_compute; reflexivity|].
+  split; [vm_compute; reflexivity|]. split; [vm_compute; reflexivity|].
+  split; [vm_compute; reflexivity|]. split; [vm_compute; reflexivity|]. split; [vm_compute; reflexivity|].
+  split; [repeat constructor; unfold wf_byte; lia|].
+  split; [repeat constructor; lia|]. split; [repeat constructor; vm_compute; discriminate|].
+  vm_compute. reflexivity.
+Qed.
+
+Print Assumptions roundtrip_any_nonvacuous.
